@@ -179,3 +179,150 @@ Section Routes.
     Qed.
   End Phev.
 End Routes.
+
+(* sum of a per-edge quantity that may depend on the state the edge is entered with *)
+Fixpoint sum_along (w : @edge QN -> list Q -> Q) (es : list (@edge QN)) (prev : list Q) (states : list (list Q)) : Q :=
+  match es, states with
+  | e :: es', cur :: states' => w e prev + sum_along w es' cur states'
+  | _, _ => 0
+  end.
+Lemma chain_additive_along : forall (P : @edge QN -> list Q -> list Q -> Prop) (f : list Q -> Q) (w : @edge QN -> list Q -> Q),
+  (forall e prev cur, P e prev cur -> f cur == f prev + w e prev) ->
+  forall es st states, chain P es st states -> f (last states st) == f st + sum_along w es st states.
+Proof.
+  intros P f w HP es. induction es as [| e es IH]; intros st states H; destruct states as [| c states];
+    cbn [chain] in H; try tauto.
+  - cbn [last sum_along]. ring.
+  - destruct H as [H1 H2]. specialize (IH c states H2). specialize (HP _ _ _ H1).
+    rewrite last_cons, IH, HP. cbn [sum_along]. ring.
+Qed.
+
+(* ------------------------------------------------------------------ routes: every edge sequence *)
+Section RouteTheorems.
+  Variable en : @engine QN.
+  Variable sv : @service QN.
+  Variable ftu : time_unit.
+  Variable fdu : dist_unit.
+  Notation tm := (speed_traverse QN en).
+
+  Lemma route_ice : forall (r : pmr QN) fl, pm_cache r = None -> rate_proper r ->
+    forall es, Forall (edge_ok en sv) es -> forall (l0 t d : Q) c1 c2,
+    exists states,
+      run_edges QN tm sv (ICE r) es [l0; t; d] (sm_ice ftu fdu fl) (c1, c2) = map (@Ok (state QN)) states
+      /\ chain (edge_law en sv (ICE r) (sm_ice ftu fdu fl)) es [l0; t; d] states
+      /\ route_state QN tm sv (ICE r) es [l0; t; d] (sm_ice ftu fdu fl) (c1, c2) = Ok (last states [l0; t; d], (c1, c2)).
+  Proof.
+    intros r fl Hnc Hp es Hes l0 t d c1 c2.
+    destruct (route_chain tm sv (ICE r) (sm_ice ftu fdu fl) (edge_ok en sv) shape3 _
+                (ice_step en sv ftu fdu r fl Hnc Hp) es Hes [l0; t; d] c1 c2) as [states [H1 [H2 [H3 _]]]].
+    { exists l0, t, d. reflexivity. }
+    exists states. repeat split; assumption.
+  Qed.
+
+  Lemma route_bev : forall (r : pmr QN) (cap start s_init : Q) bu fe, pm_cache r = None -> rate_proper r -> 0 < cap ->
+    forall es, Forall (edge_ok en sv) es -> forall (e0 s t d : Q) c1 c2,
+    exists states,
+      run_edges QN tm sv (BEV r cap start bu) es [e0; s; t; d] (sm_bev ftu fdu s_init fe) (c1, c2) = map (@Ok (state QN)) states
+      /\ chain (edge_law en sv (BEV r cap start bu) (sm_bev ftu fdu s_init fe)) es [e0; s; t; d] states
+      /\ route_state QN tm sv (BEV r cap start bu) es [e0; s; t; d] (sm_bev ftu fdu s_init fe) (c1, c2)
+         = Ok (last states [e0; s; t; d], (c1, c2)).
+  Proof.
+    intros r cap start s_init bu fe Hnc Hp Hcap es Hes e0 s t d c1 c2.
+    destruct (route_chain tm sv (BEV r cap start bu) (sm_bev ftu fdu s_init fe) (edge_ok en sv) shape4 _
+                (bev_step en sv ftu fdu r cap start s_init bu fe Hnc Hp Hcap) es Hes [e0; s; t; d] c1 c2)
+      as [states [H1 [H2 [H3 _]]]].
+    { exists e0, s, t, d. reflexivity. }
+    exists states. repeat split; assumption.
+  Qed.
+
+  Lemma route_phev : forall (cs cd : pmr QN) (cap start s_init : Q) bu fe fl,
+    pm_cache cs = None -> pm_cache cd = None -> rate_proper cs -> rate_proper cd -> 0 < cap ->
+    forall es, Forall (edge_ok en sv) es -> forall (e0 s l0 t d : Q) c1 c2,
+    exists states,
+      run_edges QN tm sv (PHEV cs cd cap start bu) es [e0; s; l0; t; d] (sm_phev ftu fdu s_init fe fl) (c1, c2)
+      = map (@Ok (state QN)) states
+      /\ chain (edge_law en sv (PHEV cs cd cap start bu) (sm_phev ftu fdu s_init fe fl)) es [e0; s; l0; t; d] states
+      /\ route_state QN tm sv (PHEV cs cd cap start bu) es [e0; s; l0; t; d] (sm_phev ftu fdu s_init fe fl) (c1, c2)
+         = Ok (last states [e0; s; l0; t; d], (c1, c2)).
+  Proof.
+    intros cs cd cap start s_init bu fe fl Hn1 Hn2 Hp1 Hp2 Hcap es Hes e0 s l0 t d c1 c2.
+    destruct (route_chain tm sv (PHEV cs cd cap start bu) (sm_phev ftu fdu s_init fe fl) (edge_ok en sv) shape5 _
+                (phev_step en sv ftu fdu cs cd cap start s_init bu fe fl Hn1 Hn2 Hp1 Hp2 Hcap) es Hes [e0; s; l0; t; d] c1 c2)
+      as [states [H1 [H2 [H3 _]]]].
+    { exists e0, s, l0, t, d. reflexivity. }
+    exists states. repeat split; assumption.
+  Qed.
+
+  (* additivity: the accumulated energy is the start value plus the sum of the per-edge energies *)
+  Lemma additive_ice : forall (r : pmr QN) fl es st states,
+    chain (edge_law en sv (ICE r) (sm_ice ftu fdu fl)) es st states ->
+    slot (sm_ice ftu fdu fl) (last states st) n_liquid
+    == slot (sm_ice ftu fdu fl) st n_liquid + sumQ (map (edge_energy_in en ftu sv r fl) es).
+  Proof.
+    intros r fl es st states H.
+    apply (chain_additive _ (fun x => slot (sm_ice ftu fdu fl) x n_liquid) (edge_energy_in en ftu sv r fl)
+             (fun e prev cur Hlaw => Hlaw) es st states H).
+  Qed.
+  Lemma additive_bev : forall (r : pmr QN) (cap start s_init : Q) bu fe es st states,
+    chain (edge_law en sv (BEV r cap start bu) (sm_bev ftu fdu s_init fe)) es st states ->
+    slot (sm_bev ftu fdu s_init fe) (last states st) n_electric
+    == slot (sm_bev ftu fdu s_init fe) st n_electric + sumQ (map (edge_energy_in en ftu sv r fe) es).
+  Proof.
+    intros r cap start s_init bu fe es st states H.
+    apply (chain_additive _ (fun x => slot (sm_bev ftu fdu s_init fe) x n_electric) (edge_energy_in en ftu sv r fe)
+             (fun e prev cur Hlaw => proj1 Hlaw) es st states H).
+  Qed.
+
+  (* PHEV: each fuel accumulates the energies of the edges entered in its regime *)
+  Definition phev_w_electric (cd : pmr QN) (sm : smodel QN) fe (e : @edge QN) (prev : list Q) : Q :=
+    if Qle_bool (slot sm prev n_soc) 0 then 0 else edge_energy_in en ftu sv cd fe e.
+  Definition phev_w_liquid (cs : pmr QN) (sm : smodel QN) fl (e : @edge QN) (prev : list Q) : Q :=
+    if Qle_bool (slot sm prev n_soc) 0 then edge_energy_in en ftu sv cs fl e else 0.
+
+  Lemma additive_phev : forall (cs cd : pmr QN) (cap start s_init : Q) bu fe fl es st states,
+    let sm := sm_phev ftu fdu s_init fe fl in
+    chain (edge_law en sv (PHEV cs cd cap start bu) sm) es st states ->
+    slot sm (last states st) n_electric == slot sm st n_electric + sum_along (phev_w_electric cd sm fe) es st states
+    /\ slot sm (last states st) n_liquid == slot sm st n_liquid + sum_along (phev_w_liquid cs sm fl) es st states.
+  Proof.
+    intros cs cd cap start s_init bu fe fl es st states sm H. split.
+    - refine (chain_additive_along _ (fun x => slot sm x n_electric) (phev_w_electric cd sm fe) _ es st states H).
+      intros e prev cur [Hc [He _]]. unfold phev_w_electric.
+      destruct (Qlt_le_dec 0 (slot sm prev n_soc)) as [Hs | Hs].
+      + rewrite (Qle_bool_false _ _ Hs). destruct (Hc Hs) as [_ [H2 _]]. exact H2.
+      + rewrite (Qle_bool_true _ _ Hs). destruct (He Hs) as [H1 _]. rewrite H1. ring.
+    - refine (chain_additive_along _ (fun x => slot sm x n_liquid) (phev_w_liquid cs sm fl) _ es st states H).
+      intros e prev cur [Hc [He _]]. unfold phev_w_liquid.
+      destruct (Qlt_le_dec 0 (slot sm prev n_soc)) as [Hs | Hs].
+      + rewrite (Qle_bool_false _ _ Hs). destruct (Hc Hs) as [H1 _]. rewrite H1. ring.
+      + rewrite (Qle_bool_true _ _ Hs). destruct (He Hs) as [_ [H2 _]]. exact H2.
+  Qed.
+
+  (* the state of charge after every edge of every route lies in [0, 100] *)
+  Lemma soc_range_bev : forall (r : pmr QN) (cap start s_init : Q) bu fe es st states,
+    chain (edge_law en sv (BEV r cap start bu) (sm_bev ftu fdu s_init fe)) es st states ->
+    Forall (fun x => in_0_100 (slot (sm_bev ftu fdu s_init fe) x n_soc)) states.
+  Proof.
+    intros r cap start s_init bu fe es st states H.
+    apply (chain_forall _ _ (fun e prev cur Hlaw => proj2 (proj2 Hlaw)) es st states H).
+  Qed.
+  Lemma soc_range_phev : forall (cs cd : pmr QN) (cap start s_init : Q) bu fe fl es st states,
+    chain (edge_law en sv (PHEV cs cd cap start bu) (sm_phev ftu fdu s_init fe fl)) es st states ->
+    Forall (fun x => in_0_100 (slot (sm_phev ftu fdu s_init fe fl) x n_soc)) states.
+  Proof.
+    intros cs cd cap start s_init bu fe fl es st states H.
+    apply (chain_forall _ _ (fun e prev cur Hlaw => proj2 (proj2 Hlaw)) es st states H).
+  Qed.
+
+  (* the unclamped step *)
+  Lemma soc_step_bev : forall (r : pmr QN) (cap start s_init : Q) bu fe e prev cur,
+    let sm := sm_bev ftu fdu s_init fe in
+    edge_law en sv (BEV r cap start bu) sm e prev cur ->
+    let used := edge_energy_in en ftu sv r bu e in
+    0 <= slot sm prev n_soc - 100 * used / cap -> slot sm prev n_soc - 100 * used / cap <= 100 ->
+    slot sm cur n_soc == slot sm prev n_soc - 100 * used / cap.
+  Proof.
+    intros r cap start s_init bu fe e prev cur sm [_ [Hs _]] used H0 H1.
+    rewrite Hs. apply spec_soc_unclamped; assumption.
+  Qed.
+End RouteTheorems.
